@@ -43,8 +43,11 @@ static float f32at(const uint8 * b) {uint32 v = u32at(b); float f; memcpy(&f, &v
  *   3 put under another name of the SAME length, MMRenameField          4 junk field under the name, MMRemoveField, put
  *   5 junk field of another type / count under the name, put again (replace-by-put)
  *   6 built in a scratch MMessage, MMMoveField (even fields) / MMCopyField (odd fields) into the Message
- *   7 fixed-size kinds with 2+ items: put with room for ONE item, then put again with retainOldData = MTrue and the full count */
+ *   7 fixed-size kinds with 2+ items: put with room for ONE item, then put again with retainOldData = MTrue and the full count
+ *   8 the whole Message is built, duplicated with MMCloneMessage(), and the CLONE is flattened
+ * Fields of type B_POINTER_TYPE are built with MMPutPointerField(): they are not flattenable and must leave no trace in the bytes, whichever way they got there. */
 static int g_detour = 0;
+static int g_ptrTargets[4];
 static MMessage * build(char ** p, const char ** why);
 
 /* puts field (name) with the n items that follow in the text into m; 0 on success */
@@ -80,6 +83,7 @@ static int put_field(MMessage * m, const char * name, uint32 tc, uint32 n, char 
             case B_POINT_TYPE:  arr = MMPutPointField(m, retain, name, cnt); break;
             case B_RECT_TYPE:   arr = MMPutRectField(m, retain, name, cnt); break;
             case B_STRING_TYPE: arr = bufs = MMPutStringField(m, retain, name, cnt); break;
+            case B_POINTER_TYPE: arr = MMPutPointerField(m, retain, name, cnt); break;        /* a NON-flattenable field: never on the wire, not counted */
             default:            arr = bufs = MMPutDataField(m, retain, tc, name, cnt); break;
          }
          if (arr == NULL) {*why = "MMPut*Field"; return 1;}
@@ -98,6 +102,7 @@ static int put_field(MMessage * m, const char * name, uint32 tc, uint32 n, char 
                case B_POINT_TYPE:  {MPoint q; q.x = f32at(b); q.y = f32at(b+4); ((MPoint *) arr)[j] = q;} break;
                case B_RECT_TYPE:   {MRect q; q.left = f32at(b); q.top = f32at(b+4); q.right = f32at(b+8); q.bottom = f32at(b+12); ((MRect *) arr)[j] = q;} break;
                case B_STRING_TYPE: bufs[j] = MBStrdupByteBuffer((const char *) b); break;
+               case B_POINTER_TYPE: ((void **) arr)[j] = (void *) &g_ptrTargets[j % 4]; break;
                default:            bufs[j] = MBAllocByteBuffer(len, MFalse); if (bufs[j] == NULL) {*why = "MBAllocByteBuffer"; return 1;} if (len) memcpy(&bufs[j]->bytes, b, len); break;
             }
          }
@@ -200,6 +205,7 @@ int main(void)
       {
          if (cmd[0] == 'D') g_detour = atoi(tok(&p)); else g_detour = 0;
          const char * why = "?"; MMessage * m = build(&p, &why);
+         if ((m)&&(g_detour == 8)) {MMessage * c = MMCloneMessage(m); MMFreeMessage(m); m = c; if (m == NULL) why = "MMCloneMessage";}
          if (m == NULL) printf("E native build failed: %s\n", why);
          else {const uint32 fs = MMGetFlattenedSize(m); uint8 * o = (uint8 *) malloc(fs + 16); MMFlattenMessage(m, o); printf("K "); puthex(o, fs); printf("\n"); free(o); MMFreeMessage(m);}
       }
